@@ -39,7 +39,7 @@ def bad_flags(st):
     return sorted(f for f in st.flags if f.startswith(('imprecise', 'opaque', 'trunc')) and not f.startswith('imprecise:branch'))
 
 
-def compare_len_enc(ctx, rule, label, prog, enc_path, len_path, leaf_crates=(), where=None, allow_flags=()):
+def compare_len_enc(ctx, rule, label, prog, enc_path, len_path, leaf_crates=(), where=None, allow_flags=(), classify=None):
     """returns number of compared (enc outcome, len outcome) pairs"""
     e = summary(prog, enc_path, 'enc', leaf_crates)
     l = summary(prog, len_path, 'len', leaf_crates)
@@ -75,6 +75,10 @@ def compare_len_enc(ctx, rule, label, prog, enc_path, len_path, leaf_crates=(), 
             sums_e = dict(notes)
             if total != lo.value:
                 items = l2.items_of(eo.st.events)
+                alt = classify(lm, lo.st, eo.st.events, total, lo.value) if classify else None
+                if alt:
+                    ctx.violation(rule, alt, '%s on {%s}: cbor_len = %r but encode writes %r bytes' % (label, key.split('|', 1)[1], lo.value, total), where)
+                    continue
                 ctx.violation(rule, label + '|mismatch|' + key.split('|', 1)[1], 'on {%s}: cbor_len = %r but encode writes %r bytes (items %s)' % (key.split('|', 1)[1], lo.value, total, items[:8]), where)
                 continue
             bad = [k for k in sums_l if k in sums_e and sums_l[k] != sums_e[k]]
